@@ -52,6 +52,9 @@ type SimConn struct {
 	// (io.Reader allows n > 0 with a non-nil error; iotest.DataErrReader behaves so).
 	DataErr   bool
 	OnDataErr func()
+	// ZeroRead, if set, is asked before a Read hands data over whether this call returns (0, nil) instead
+	// (io.Reader discourages but allows it; callers must treat it as "nothing happened").
+	ZeroRead func() bool
 	// counters
 	Peeks, Reads, Discards, Fills int
 	views                         [][]byte // views handed out since the last read call (ReallocPoison)
@@ -192,6 +195,9 @@ func (c *SimConn) Read(p []byte) (int, error) {
 			// a source that returns nothing and no error would spin; treat as EOF
 			c.pendErr = io.EOF
 		}
+	}
+	if c.ZeroRead != nil && c.ZeroRead() {
+		return 0, nil
 	}
 	avail := c.w - c.r
 	n := min(avail, len(p))
